@@ -93,6 +93,10 @@ def run_demo(pid, n, release):
             WT, prof, WT, prof, d, n), cwd=d, timeout=600)
         exp = open("%s/demo%d.expected" % (d, n)).read()
         ok = norm(out) == norm(exp)
+        if not ok:
+            # free-form expected file: the expected stdout is one block of it
+            rc2, out2 = sh("cargo run --manifest-path %s/Cargo.toml --offline -q %s -p yarel-cli < %s/demo%d.repl 2>/dev/null" % (WT, prof, d, n), cwd=d, timeout=600)
+            ok = matches(out2, exp) and rc2 not in (101, 134, 139)
         return ok, out[-1500:]
     if os.path.exists("%s/demo%d.rs" % (d, n)):
         src = open("%s/demo%d.rs" % (d, n)).read()
